@@ -106,9 +106,25 @@ def known_family(case, m, prop=None):
     only - never from what the tool produced.  With `prop`, only findings
     that known_findings.json lists for that property count."""
     fam = _family(case, m)
+    if fam and fam.endswith("#loop-clause"):
+        # clause (b) of F-P only counts for the properties for which a
+        # violating replay of that clause is listed
+        fam = fam.split("#")[0]
+        if prop is not None and prop not in _clause_b_properties():
+            return None
     if fam and prop is not None and fam not in _open_findings(prop):
         return None
     return fam
+
+
+def _clause_b_properties():
+    if "clause_b" not in _open_cache:
+        from vlib.runner import load_known
+        props = set()
+        for e in load_known():
+            props.update(e.get("clause_b_properties", []))
+        _open_cache["clause_b"] = props
+    return _open_cache["clause_b"]
 
 
 def _family(case, m):
@@ -128,13 +144,18 @@ def _family(case, m):
             "break_loop_tail_of_fork_ending_loop"))
     if "break_multi_loop_last" in f:
         return "PV-F-B-trailing-loop-multi-event-break"
+    if "empty_break_loop_last" in f:
+        return "PV-F-B0-trailing-loop-empty-break"
     if "break_loop_tail_of_loop" in f:
         return "PV-F-C-break-loop-at-tail-of-loop-body"
     if "break_loop_tail_of_fork_ending_loop" in f:
         return "PV-F-C2-break-loop-ends-fork-branch-ending-loop-body"
-    if not m.complete and not m.too_large and \
-            partial_fork_or_join(m.all_jobs, m.jobs):
-        return "PV-F-P-subset-shows-fork-or-join-partly"
+    if not m.complete and not m.too_large:
+        if partial_fork_or_join(m.all_jobs, m.jobs):
+            return "PV-F-P-subset-shows-fork-join-or-loop-partly"
+        if partial_fork_or_join(m.all_jobs, m.jobs,
+                                loop_event_names(m.ast)):
+            return "PV-F-P-subset-shows-fork-join-or-loop-partly#loop-clause"
     return None
 
 
@@ -162,20 +183,30 @@ def _families(jobs):
     return succ, pred
 
 
-def partial_fork_or_join(all_jobs, jobs):
+def loop_event_names(ast):
+    out = set()
+    for n in ps.walk(ast):
+        if isinstance(n, ps.Loop):
+            out.update(ps.event_names(n.body))
+    return out
+
+
+def partial_fork_or_join(all_jobs, jobs, in_loop=()):
     """F-P: the job subset shows only part of the family of successor sets
     of an AND/OR fork (an event type - or the job start - that has, in the
     complete model of the definition, a successor set of >=2 events) or only
     part of the family of predecessor sets of a join (a predecessor set of
     >=2 events).  Gate inference then nests the branches differently from
     the definition, and the walk validates merges against the observed
-    predecessor sets only."""
+    predecessor sets only.  The same holds for event types inside a loop
+    body (`in_loop`): a body alternative that is never seen to be followed
+    by another iteration looks like a break path to the learner."""
     cs, cp = _families(all_jobs)
     ss, sp = _families(jobs)
     for sub, comp in ((ss, cs), (sp, cp)):
         for t, s in sub.items():
             c = comp.get(t, set())
-            if s != c and any(len(x) >= 2 for x in c):
+            if s != c and (any(len(x) >= 2 for x in c) or t in in_loop):
                 return True
     return False
 
